@@ -87,11 +87,24 @@ def _m_c11_inverted_input(k, req, instants, fail):
     return any(e == _fmt(R.date() + timedelta(days=off)) for R in instants for off in (0, 1))
 
 
+def _m_c17_ja_sequence(k, req, instants, fail):
+    # SequenceRecognizer routes every 'ja-*' (and 'zh-*') culture to the Chinese phone / IP / URL model on purpose
+    # (same as the .NET original), although no Japanese model is registered: the statement asks for English / ValueError
+    op = req.get('op') or {}
+    c = op.get('culture')
+    if op.get('kind') not in ('PhoneNumber', 'IpAddress', 'URL') or not isinstance(c, str) or not c.lower().startswith('ja-'):
+        return False
+    if fail.get('kind') == 'model-instead-of-ValueError':
+        return True
+    return fail.get('kind') == 'wrong-model-behaviour' and any(x.split('|')[1] == 'zh-cn' for x in fail.get('behaves_like', []))
+
+
 MATCHERS = {
     'c09-same-day-time-of-day': _m_c09_same_day,
     'c06-de-trailing-dot': _m_c06_de_trailing_dot,
     'c11-empty-range-at-reference': _m_c11_empty_range_at_reference,
     'c11-inverted-input-range': _m_c11_inverted_input,
+    'c17-ja-sequence': _m_c17_ja_sequence,
 }
 
 
